@@ -18,7 +18,7 @@ let ghost vx_l = *env; let ghost vx_ws = wakers@;
 invariant
     vx_it.seq() == vx_ws, 0 <= vx_it.index@ <= vx_ws.len(), env.set == vx_l.set, vx_ws.len() == old(env).registered@.len(),
     forall|i: int| #![trigger vx_ws[i]] #![trigger old(env).registered@[i]] 0 <= i < vx_ws.len() ==> vx_ws[i].task == old(env).registered@[i],
-    forall|i: int| 0 <= i < vx_it.index@ ==> env.woken@.contains((#[trigger] vx_ws[i]).task),
+    forall|i: int| 0 <= i < vx_it.index@ ==> env.woken@.contains((#[trigger] vx_ws[i]).task), // OBL:C07.flag.inv_every_waker_so_far_woken
     forall|t: int| vx_l.woken@.contains(t) ==> env.woken@.contains(t),
 //@ item Flag::poll
 //@ header
